@@ -42,6 +42,18 @@ CHECKS = {
         note="Trusted: vlib/opcx.py; the tolerated class (void formatting containers, empty text body = absent) is spelled out in props/c12.py and DESIGN.md. Accessors documented as creating content are not in these passes.",
         design="§3 C12",
     ),
+    "C07": dict(
+        technique="runtime monitoring: chart creation and replace_data executions over generated chart data for all 29 writable chart types and the corpus charts; libxml2 validation of each chart part; read API compared with the supplied data and with the harness's own XPath reading of the chart XML; C14N comparison of everything outside the data children across replace_data",
+        text="29 chart types x ~14 data shapes (series 0..50, points 0/1/few/hundreds, None holes, string/number/date/multi-level categories with ragged branching, number formats with metacharacters) through add_chart and insert_chart, followed by up to 3 replace_data with differently shaped data (quick 488 / thorough 33 500 cases), plus replace_data on every chart of the corpus decks after formatting was applied: schema validity, names/values/categories exactly as supplied, unique c:idx/c:order, ptCount, nothing but data changed by replace_data.",
+        note="Trusted: libxml2 + shipped dml-chart.xsd; vlib/xlsxx.py independent chart-XML reader; float comparison exact after float(str(v)). Known findings: negative axId/crossAx literals, c:smooth in radar series, zero-series replace_data.",
+        design="§3 C07",
+    ),
+    "C08": dict(
+        technique="runtime monitoring: offline checker over every saved package: the embedded workbook found through c:externalData is read by an independent .xlsx reader (zipfile + lxml) and every c:f range is compared cell by cell with the cached c:pt values; exhaustive column-reference check against two references",
+        text="467 (quick) / 12 000 (thorough) generated charts with series counts crossing the Z/AA, AZ/BA and ZZ/AAA column boundaries, every category depth, XY/bubble series of unequal length, each followed by replace_data (new-part and replace-blob paths) + the corpus charts: 2.6e5 / 4.8e6 cells compared across 3.9e4 / 7.5e5 ranges; _column_reference(n) for all n in 1..16384 against a bijective base-26 model and XlsxWriter's own xl_col_to_name.",
+        note="Trusted: vlib/xlsxx.py (workbook reader, A1 range parser), XlsxWriter only as the library under python-pptx. Known findings: labels written with worksheet.write() (formulas, hyperlink conversion), workbook always in the 1900 date system.",
+        design="§3 C08",
+    ),
     "C09": dict(
         technique="runtime monitoring: table-driven execution of every read/write property of the proxy layer (coverage of the table measured against run-time introspection) with boundary/threshold/None/out-of-domain values, reference model of last values for assignment sequences, save/re-open read-back",
         text="148 table rows covering 116 of 116 non-exempt introspected read/write properties (23 exempt: text -> C04, core properties -> C18, chart data -> C07/C08): each value of the row's grid on a fresh object (read-back within the stated quantum, save/re-open, None semantics, out-of-domain values must raise TypeError/ValueError), random assignment sequences per object with independence groups (interference), and the same on objects found in the 67 corpus decks.",
@@ -83,6 +95,13 @@ CHECKS = {
         text="150 (quick) / 6 000 (thorough) histories: PNG/JPEG/GIF/BMP/TIFF recipes (1-64 px, DPI absent/integral/fractional/0/huge/non-square, lying or missing extensions) added by path and stream via add_picture, group add_picture, picture placeholders, movie poster frames and OLE icons, repeated across slides and re-opens (media renumbered with gaps before re-open): one part per distinct bytes, byte-exact, extension/content type of the actual format, default size at the true DPI within 1 EMU, aspect ratio with one dimension given.",
         note="Trusted: the harness's own header parsers for DPI (PNG pHYs, JFIF, BMP, TIFF tags) and vlib/opcx.py; Pillow only as producer of inputs.",
         design="§3 C15",
+    ),
+    "C16": dict(
+        technique="runtime monitoring with fault injection: every listed irregularity injected (zipfile + lxml rewriting) at every applicable location of every corpus deck, singly and in pairs; loaded package compared with what the independent reader computes for the faulted input; saved output checked by the closure rules relative to the faulted input; non-packages checked for the documented exception type",
+        text="~2 700 single faults + 500 pairs (quick) / 4 976 locations x 3 forms + 800 pairs per deck (thorough, ~7.5e4 cases) of: dangling relationship target, deleted .rels item, case-flipped Default/Override/part extension, unknown content type on leaf parts, unreferenced extra members, consistently permuted/gapped slide part names, removed core properties, directory form; plus truncated zips of every prefix class, random bytes, empty/text files, missing mandatory members, Word/Excel main parts, each as path and stream.",
+        note="Trusted: vlib/opcx.py and props/c01.compare for preservation; the expected exception per input class is the one the statement lists. Fault level: fault_enumeration over the listed irregularities; malformed XML inside a member is not a listed irregularity and is not injected.",
+        design="§3 C16",
+        category="fault_enumeration",
     ),
     "C17": dict(
         technique="runtime monitoring: exhaustive connector creations/moves over a coordinate grid against a 4-tuple model, seeded nested group builds and freeform pens; geometry read from a:off/a:ext/flip, chOff/chExt and path points by the harness's own XML reads after every step",
